@@ -25,6 +25,15 @@ class Infra(Exception):
     """Failure of the machinery itself (exit 2, never a VIOLATION)."""
 
 
+class Hang(Exception):
+    """A driver running the implementation did not return within a timeout far above its normal run time: the code under test
+    stopped making progress (deadlock, endless loop).  Reported as a violation of the property the driver exercises."""
+
+    def __init__(self, cmd, timeout):
+        Exception.__init__(self, "no progress within %ss: %s" % (timeout, " ".join(map(str, cmd))))
+        self.cmd, self.timeout = [str(c) for c in cmd], timeout
+
+
 def log(*a):
     print(*a, flush=True)
 
@@ -116,6 +125,8 @@ def run(cmd, timeout=600, env=None, stdout=None, cwd=None, check=True):
         r = subprocess.run(cmd, capture_output=(stdout is None), stdout=stdout, stderr=(subprocess.PIPE if stdout is not None else None),
                            text=True, timeout=timeout, env=e, cwd=cwd)
     except subprocess.TimeoutExpired:
+        if str(cmd[0]).startswith(os.path.join(BUILD, "bin") + os.sep):
+            raise Hang(cmd, timeout)
         raise Infra("timeout after %ss: %s" % (timeout, " ".join(map(str, cmd))))
     if check and r.returncode != 0:
         raise Infra("command failed (%d): %s\n%s" % (r.returncode, " ".join(map(str, cmd)), (r.stderr or "")[-3000:]))
@@ -394,7 +405,7 @@ class Report:
                "traces_validated_against_impl": self.traces,
                "samples": self.samples or ["(none)"],
                # the TLC runs listed under tlc_runs exhausted their bounded state spaces; legs that record random histories sample
-               "exhaustive": self.exhaustive and not sampled,
+               "exhaustive": self.exhaustive and not sampled and self.states > 0,
                "model_state_spaces_exhausted": True, "sampled_legs": sampled,
                "evaluations": sum(v.get("events", 0) for v in legs.values())}
         cov.update(self.extra)
